@@ -483,6 +483,24 @@ def run_options(ctx):
         ctx.state_count += 1
         check_shift(ctx, "greg", e, ["PT1H"], utc=True)
         check_shift(ctx, "greg", e, [], utc=True)
+    # --utc converts FIRST, offsets (incl. months/years, which clamp on the date) apply to the UTC value
+    dforms, tforms, zforms = mtext.date_forms(), mtext.time_forms(), mtext.zone_forms()
+    dvu = {"year": 2016, "month": 3, "day": 31, "doy": 91, "week": 13, "wday": 4}
+    tvu = {"h": 1, "m": 0, "s": 0, "frac": "0"}
+    for dname in ("cal_ext", "cal_basic", "ord_ext", "week_basic"):
+        dtoks, dkind, cls, rep = dforms[dname]
+        for tname in ("hhmmss_ext", "hhmmss_basic", "hhmm_ext", "hhmm_basic"):
+            ttoks, tkind, prec = tforms[tname]
+            for zname in ("hhmm", "hh:mm"):
+                ztoks, zkind = zforms[zname]
+                if not mtext.compatible(dkind, tkind, zkind):
+                    continue
+                text = mtext.render(dtoks, dvu) + "T" + mtext.render(ttoks, tvu) + mtext.render(ztoks, ZVALS["hhmm"])
+                entry = (text, dname, dtoks + [mtext.lit("T")] + ttoks + ztoks, rep, cls, dvu, tname, tvu, "hhmm")
+                for offs in (["P1M"], ["-P1M"], ["P1Y"], ["P1M", "P1D"], ["-P1M", "PT1H"]):
+                    ctx.state_count += 1
+                    check_shift(ctx, "greg", entry, offs, utc=True)
+                    check_shift(ctx, "greg", entry, offs, utc=False)
     # calendar through the environment variable
     for kind in ("360", "365", "366"):
         for e in ents[:20]:
